@@ -93,6 +93,20 @@ Theorem C19_layer_bd_admissible : forall (hs : list (Z * Z * option R)) (prev : 
   Forall horizon_admissible hs -> Forall (fun v => 567 / 1000 <= v <= 23 / 10) (layer_bd prev hs).
 Proof. exact layer_bd_admissible_lemma. Qed.
 
+(* the lower boundary: TBASE is a constant of the run, the CONFIGURED AnnualAverageTemperature (config.go:120);
+   every call leaves it in the lowest node, and the envelope holds with the configured value *)
+Theorem C19_day_lower_boundary : forall (d : day_in R) (t0 : list R) (x : R),
+  last (o_tsoil0 (soiltemp_day d t0)) x = d_tbase d /\ last (o_td (soiltemp_day d t0)) x = d_tbase d.
+Proof. exact day_lower_boundary_lemma. Qed.
+
+Theorem C19_run_envelope_configured : forall (days : list (day_in R)) (tmin tmax amt lo hi : R) (n : nat),
+  (1 <= n)%nat -> Forall (day_admissible (tbase_of_config amt)) days ->
+  let t0 := init_profile tmin tmax (tbase_of_config amt) n in
+  lo <= (tmin + tmax) / 2 <= hi -> lo <= amt <= hi ->
+  within lo hi (snd (run days t0)) ->
+  within lo hi (fst (run days t0)).
+Proof. exact run_envelope_configured_lemma. Qed.
+
 (* non-vacuity: a mineral layer (BD 1.5, 2 % humus, water content 0.3) is admissible *)
 Example C19_nonvacuous :
   admissible {| l_bd := 15 / 10; l_wg := 3 / 10; l_hum := 2 / 100; l_pw := 9 / 100; l_ex := 1 / 100 |}.
@@ -109,3 +123,5 @@ Print Assumptions C19_diffusion_number_refuted.
 Print Assumptions C19_hour_step_refuted.
 Print Assumptions C19_class_density.
 Print Assumptions C19_layer_bd_admissible.
+Print Assumptions C19_day_lower_boundary.
+Print Assumptions C19_run_envelope_configured.
